@@ -31,14 +31,16 @@ def runsAux : Nat → Option Sp → List Seg → List Sp
 
 def runsOf (segs : List Seg) : List Sp := runsAux 0 none segs
 
+theorem segsSize_cons (s : Seg) (ss : List Seg) : segsSize (s :: ss) = s.size + segsSize ss := by
+  simp [segsSize]
+
 theorem freeAt_append (off : Nat) (a b : List Seg) (p : Nat) :
     freeAt off (a ++ b) p ↔ freeAt off a p ∨ freeAt (off + segsSize a) b p := by
   induction a generalizing off with
   | nil => simp [freeAt, segsSize]
   | cons s ss ih =>
-    simp only [List.cons_append, freeAt, ih, segsSize, List.map_cons, List.sum_cons]
-    have : off + s.size + (ss.map Seg.size).sum = off + (s.size + (ss.map Seg.size).sum) := by omega
-    rw [show segsSize ss = (ss.map Seg.size).sum from rfl, this]
+    simp only [List.cons_append, freeAt, ih, segsSize_cons]
+    rw [show off + s.size + segsSize ss = off + (s.size + segsSize ss) by omega]
     constructor
     · rintro (h | h | h)
       · exact Or.inl (Or.inl h)
@@ -55,20 +57,25 @@ theorem freeAt_bounds (off : Nat) (segs : List Seg) (p : Nat) (h : freeAt off se
   | nil => exact absurd h (by simp [freeAt])
   | cons s ss ih =>
     simp only [freeAt] at h
-    simp only [segsSize, List.map_cons, List.sum_cons]
+    rw [segsSize_cons]
     rcases h with ⟨_, h1, h2⟩ | h
     · constructor <;> omega
     · have := ih _ h
-      simp only [segsSize] at this
       constructor <;> omega
+
+/-- start of the run being extended, or the current offset when there is none -/
+def curStart (cur : Option Sp) (off : Nat) : Nat :=
+  match cur with
+  | some r => r.start
+  | none => off
 
 /-- coverage and shape of `runsAux`: with a current run `cur` that ends exactly at `off` -/
 theorem runsAux_spec (segs : List Seg) (hok : ∀ s ∈ segs, s.OK) (off : Nat) (cur : Option Sp)
     (hcur : ∀ r, cur = some r → 0 < r.len ∧ r.stop = off) :
     (∀ s ∈ runsAux off cur segs, 0 < s.len) ∧
     (runsAux off cur segs).Pairwise (fun a b => a.stop < b.start) ∧
-    (∀ s ∈ runsAux off cur segs, (match cur with | some r => r.start | none => off) ≤ s.start ∧ s.stop ≤ off + segsSize segs) ∧
-    (∀ s ∈ runsAux off cur segs, cur = none → off ≤ s.start) ∧
+    (∀ s ∈ runsAux off cur segs, curStart cur off ≤ s.start ∧ s.stop ≤ off + segsSize segs) ∧
+    (cur = none → ∀ s ∈ runsAux off cur segs, off ≤ s.start) ∧
     (∀ p, covers (runsAux off cur segs) p ↔ ((∃ r, cur = some r ∧ r.has p) ∨ freeAt off segs p)) := by
   induction segs generalizing off cur with
   | nil =>
@@ -77,14 +84,14 @@ theorem runsAux_spec (segs : List Seg) (hok : ∀ s ∈ segs, s.OK) (off : Nat) 
     | some r =>
       obtain ⟨h1, h2⟩ := hcur r rfl
       refine ⟨by simpa [runsAux] using h1, by simp [runsAux], ?_, by simp, ?_⟩
-      · intro s hs; simp [runsAux] at hs; subst hs; simp [segsSize, h2]
+      · intro s hs; simp [runsAux] at hs; subst hs; simp [segsSize, h2, curStart]
       · intro p; simp [runsAux, covers, freeAt]
   | cons s ss ih =>
     have hs := hok s (by simp)
     have hss : ∀ x ∈ ss, x.OK := fun x hx => hok x (by simp [hx])
     have hsz := Seg.size_ge s hs
     simp only [minSpanLength] at hsz
-    have hsum : segsSize (s :: ss) = s.size + segsSize ss := by simp [segsSize]
+    rw [segsSize_cons]
     by_cases hf : s.isFree = true
     · cases cur with
       | none =>
@@ -92,8 +99,14 @@ theorem runsAux_spec (segs : List Seg) (hok : ∀ s ∈ segs, s.OK) (off : Nat) 
         obtain ⟨i1, i2, i3, _, i5⟩ := ih hss (off + s.size) (some { start := off, len := s.size })
           (by intro r hr; cases hr; exact ⟨by omega, rfl⟩)
         refine ⟨i1, i2, ?_, ?_, ?_⟩
-        · intro x hx; have := i3 x hx; simp only at this; rw [hsum]; constructor <;> omega
-        · intro x hx _; exact (i3 x hx).1
+        · intro x hx
+          have := i3 x hx
+          simp only [curStart] at this ⊢
+          constructor <;> omega
+        · intro _ x hx
+          have := i3 x hx
+          simp only [curStart] at this
+          omega
         · intro p
           rw [i5 p]
           simp only [freeAt, hf, true_and, Option.some.injEq, exists_eq_left', Sp.has, Sp.stop, reduceCtorEq, false_and, exists_false, false_or]
@@ -102,8 +115,11 @@ theorem runsAux_spec (segs : List Seg) (hok : ∀ s ∈ segs, s.OK) (off : Nat) 
         simp only [runsAux, hf, ↓reduceIte]
         obtain ⟨i1, i2, i3, _, i5⟩ := ih hss (off + s.size) (some { start := r.start, len := r.len + s.size })
           (by intro r' hr'; cases hr'; simp only [Sp.stop] at hr2 ⊢; exact ⟨by omega, by omega⟩)
-        refine ⟨i1, i2, ?_, by intro x _ h; cases h, ?_⟩
-        · intro x hx; have := i3 x hx; simp only at this; rw [hsum]; constructor <;> omega
+        refine ⟨i1, i2, ?_, by intro h; cases h, ?_⟩
+        · intro x hx
+          have := i3 x hx
+          simp only [curStart] at this ⊢
+          constructor <;> omega
         · intro p
           rw [i5 p]
           simp only [freeAt, hf, true_and, Option.some.injEq, exists_eq_left', Sp.has, Sp.stop] at hr2 ⊢
@@ -123,8 +139,13 @@ theorem runsAux_spec (segs : List Seg) (hok : ∀ s ∈ segs, s.OK) (off : Nat) 
         simp only [runsAux, hf', Bool.false_eq_true, ↓reduceIte]
         obtain ⟨i1, i2, i3, i4, i5⟩ := ih hss (off + s.size) none (by intro r hr; cases hr)
         refine ⟨i1, i2, ?_, ?_, ?_⟩
-        · intro x hx; have := i3 x hx; simp only at this; rw [hsum]; constructor <;> omega
-        · intro x hx _; have := i4 x hx rfl; omega
+        · intro x hx
+          have := i3 x hx
+          simp only [curStart] at this ⊢
+          constructor <;> omega
+        · intro _ x hx
+          have := i4 rfl x hx
+          omega
         · intro p
           rw [i5 p]
           simp [freeAt, hf']
@@ -132,7 +153,7 @@ theorem runsAux_spec (segs : List Seg) (hok : ∀ s ∈ segs, s.OK) (off : Nat) 
         obtain ⟨hr1, hr2⟩ := hcur r rfl
         simp only [runsAux, hf', Bool.false_eq_true, ↓reduceIte]
         obtain ⟨i1, i2, i3, i4, i5⟩ := ih hss (off + s.size) none (by intro r' hr'; cases hr')
-        refine ⟨?_, ?_, ?_, by intro x _ h; cases h, ?_⟩
+        refine ⟨?_, ?_, ?_, by intro h; cases h, ?_⟩
         · intro x hx
           rcases List.mem_cons.mp hx with rfl | hx
           · exact hr1
@@ -140,15 +161,16 @@ theorem runsAux_spec (segs : List Seg) (hok : ∀ s ∈ segs, s.OK) (off : Nat) 
         · rw [List.pairwise_cons]
           refine ⟨?_, i2⟩
           intro x hx
-          have := i4 x hx rfl
+          have := i4 rfl x hx
           simp only [Sp.stop] at hr2 ⊢
           omega
         · intro x hx
           rcases List.mem_cons.mp hx with rfl | hx
-          · simp only [Sp.stop] at hr2 ⊢; rw [hsum]; constructor <;> omega
-          · have := i3 x hx; have h4 := i4 x hx rfl
-            simp only [Sp.stop] at hr2 this ⊢
-            rw [hsum]; constructor <;> omega
+          · simp only [Sp.stop, curStart] at hr2 ⊢; constructor <;> omega
+          · have := i3 x hx
+            have h4 := i4 rfl x hx
+            simp only [Sp.stop, curStart] at hr2 this ⊢
+            constructor <;> omega
         · intro p
           simp only [covers, List.mem_cons, exists_eq_or_imp, Option.some.injEq, exists_eq_left', freeAt, hf',
             Bool.false_eq_true, false_and, false_or]
